@@ -115,6 +115,10 @@ pub struct Config {
     w_deliver: u32,
     w_fault: u32,
     w_advance: u32,
+    /// the client of an established stream reads only when the server is blocked or done, so
+    /// that the server's TLS send buffer fills up
+    #[serde(default)]
+    stall_client: bool,
 }
 
 #[derive(Serialize, Deserialize, Clone, Debug, PartialEq)]
@@ -130,6 +134,9 @@ pub enum Action {
     Advance(u64),
     DropFut(usize),
     SrvWrite(usize, u32),
+    /// vectored write of two slices of the given lengths
+    #[serde(alias = "SrvWriteV")]
+    SrvWriteV(usize, u32, u32),
     SrvFlush(usize),
     SrvRead(usize),
     CliWrite(usize, u32),
@@ -225,6 +232,8 @@ struct Conn {
     out_tail: usize,
     /// handshake flights the client has produced so far (ClientHello = 1, final flight = 2)
     flights: u32,
+    /// the server's last write or flush on the stream returned Pending
+    srv_blocked: bool,
 }
 
 fn payload(seed: u64, len: usize, salt: u64) -> Vec<u8> {
@@ -370,13 +379,18 @@ async fn run_accept(cfg: &Config, ch: &mut Chooser<Action>, ctx: &mut RunCtx) ->
                     en.push((Action::ClientSend(i, f), cfg.w_deliver));
                 }
             }
-            if !c.s2c.borrow().buf.is_empty() {
+            let stalled = cfg.stall_client && c.stream.is_some() && !c.srv_blocked && c.s_written < c.p_s2c.len();
+            if !c.s2c.borrow().buf.is_empty() && !stalled {
                 en.push((Action::ClientRecv(i), cfg.w_deliver * 2));
             }
             if c.stream.is_some() {
                 if c.s_written < c.p_s2c.len() {
                     en.push((Action::SrvWrite(i, 700), 2));
                     en.push((Action::SrvWrite(i, 20000), 2));
+                    en.push((Action::SrvWrite(i, 60000), 1));
+                    en.push((Action::SrvWriteV(i, 5, 700), 1));
+                    en.push((Action::SrvWriteV(i, 700, 8000), 1));
+                    en.push((Action::SrvWriteV(i, 3000, 13000), 1));
                 } else if !c.s_flushed {
                     en.push((Action::SrvFlush(i), 3));
                 }
@@ -511,6 +525,7 @@ async fn run_accept(cfg: &Config, ch: &mut Chooser<Action>, ctx: &mut RunCtx) ->
                     sends: 0,
                     out_tail: 0,
                     flights: 0,
+                    srv_blocked: false,
                 };
                 c.pump_client_out();
                 conns.push(c);
@@ -634,6 +649,7 @@ async fn run_accept(cfg: &Config, ch: &mut Chooser<Action>, ctx: &mut RunCtx) ->
                 ev!(ctx, "client #{i} delivers (mode {frac})");
             }
             Action::ClientRecv(i) => {
+                conns[i].srv_blocked = false;
                 conns[i].client_recv();
                 ev!(ctx, "client #{i} receives");
             }
@@ -685,8 +701,42 @@ async fn run_accept(cfg: &Config, ch: &mut Chooser<Action>, ctx: &mut RunCtx) ->
                         c.stream = None;
                     }
                     Poll::Pending => {
+                        c.srv_blocked = true;
                         ctx.bump("probe.server_write_backpressure");
                         ev!(ctx, "server #{i} write pending");
+                    }
+                }
+            }
+            Action::SrvWriteV(i, la, lb) => {
+                let c = &mut conns[i];
+                let (_f, w) = c.io_task.fresh();
+                let mut cx = Context::from_waker(&w);
+                let mid = (c.s_written + la as usize).min(c.p_s2c.len());
+                let end = (mid + lb as usize).min(c.p_s2c.len());
+                let (a, b) = (c.p_s2c[c.s_written..mid].to_vec(), c.p_s2c[mid..end].to_vec());
+                let bufs = [std::io::IoSlice::new(&a), std::io::IoSlice::new(&b)];
+                match c.stream.as_mut().unwrap().as_mut().poll_write_vectored(&mut cx, &bufs) {
+                    Poll::Ready(Ok(n)) => {
+                        if n > a.len() + b.len() {
+                            return Some(Violation::new("payload-corrupted", format!("stream {i}: a vectored write of {} bytes reported {n} bytes written", a.len() + b.len())));
+                        }
+                        if n < a.len() + b.len() {
+                            ctx.bump("probe.server_vectored_write_partial");
+                            if n > a.len() {
+                                ctx.bump("probe.server_vectored_write_cut_in_second_slice");
+                            }
+                        }
+                        c.s_written += n;
+                        ctx.bump("probe.server_vectored_write");
+                        ev!(ctx, "server #{i} writes (vectored)");
+                    }
+                    Poll::Ready(Err(_)) => {
+                        c.stream = None;
+                    }
+                    Poll::Pending => {
+                        c.srv_blocked = true;
+                        ctx.bump("probe.server_write_backpressure");
+                        ev!(ctx, "server #{i} vectored write pending");
                     }
                 }
             }
@@ -701,6 +751,7 @@ async fn run_accept(cfg: &Config, ch: &mut Chooser<Action>, ctx: &mut RunCtx) ->
                     }
                     Poll::Ready(Err(_)) => c.stream = None,
                     Poll::Pending => {
+                        c.srv_blocked = true;
                         ctx.bump("probe.server_flush_pending");
                         ev!(ctx, "server #{i} flush pending");
                     }
@@ -821,6 +872,9 @@ impl Engine for TlsSim {
     }
     fn gen_config(prop: &str, tier: Tier, rng: &mut Rng) -> Config {
         let big = rng.chance(1, if tier == Tier::Thorough { 4 } else { 8 });
+        // bulk mode: more than the TLS send buffer (64 KiB) in one direction towards a client
+        // that reads only when the server is blocked
+        let bulk = big && rng.chance(1, 2);
         Config {
             conn: if prop == "C19" { Some(connsim::gen(rng)) } else { None },
             kind: if rng.chance(1, 2) { Kind::Rustls } else { Kind::Openssl },
@@ -831,15 +885,17 @@ impl Engine for TlsSim {
             services: rng.range(1, 2) as usize,
             pipe_cap: *rng.pick(&[512, 1024, 4096, 16384, 1 << 20]),
             payload_seed: rng.next_u64(),
-            payload_len: if big { rng.range(8_000, 65_536) as usize } else { rng.range(0, 3000) as usize },
+            payload_len: if bulk { *rng.pick(&[70_000usize, 90_000, 130_000]) } else if big { if rng.chance(1, 3) { 65_536 } else { rng.range(8_000, 65_536) as usize } } else { rng.range(0, 3000) as usize },
             max_actions: rng.range(8, 90) as usize,
             max_calls: rng.range(1, 5) as usize,
             w_deliver: *rng.pick(&[2, 4, 8]),
             w_fault: *rng.pick(&[0, 0, 1, 2]),
             w_advance: *rng.pick(&[1, 2, 4]),
+            stall_client: bulk,
         }
     }
     fn max_actions(_: &str, cfg: &Config) -> usize {
+        let _ = cfg.stall_client;
         cfg.max_actions
     }
     fn run(prop: &str, cfg: &Config, ch: &mut Chooser<Action>, ctx: &mut RunCtx) -> Option<Violation> {
@@ -898,7 +954,7 @@ impl Engine for TlsSim {
     }
     fn required_probes(prop: &str, _tier: Tier) -> Vec<&'static str> {
         if prop == "C18" {
-            vec!["probe.timeout_outcome", "probe.tls_error_outcome", "probe.stream_outcome", "probe.not_ready_at_limit", "probe.release_at_limit", "probe.payload_roundtrip", "probe.server_write_backpressure"]
+            vec!["probe.timeout_outcome", "probe.tls_error_outcome", "probe.stream_outcome", "probe.not_ready_at_limit", "probe.release_at_limit", "probe.payload_roundtrip", "probe.server_write_backpressure", "probe.server_vectored_write", "probe.server_vectored_write_partial", "probe.server_vectored_write_cut_in_second_slice"]
         } else {
             connsim::required_probes()
         }
